@@ -48,10 +48,11 @@ type model struct {
 	root     ref.Val
 	rejected string // "" or the route of the first repeated-key rejection on this path (sticky)
 	built    int    // number of Build calls so far (bounded)
+	resets   int    // number of Reset calls made in the middle of an assembly (bounded)
 }
 
 func (m *model) clone() *model {
-	c := &model{done: m.done, root: m.root, rejected: m.rejected, built: m.built}
+	c := &model{done: m.done, root: m.root, rejected: m.rejected, built: m.built, resets: m.resets}
 	for _, f := range m.stack {
 		nf := f
 		nf.m = append([]ref.Entry(nil), f.m...)
@@ -77,7 +78,7 @@ func (m *model) key() string {
 	if m.done {
 		sb.WriteString("DONE:" + m.root.Key())
 	}
-	return fmt.Sprintf("%s|rej=%s|b=%d", sb.String(), m.rejected, m.built)
+	return fmt.Sprintf("%s|rej=%s|b=%d|r=%d", sb.String(), m.rejected, m.built, m.resets)
 }
 
 // atValue: is the next thing a value (root not started, map value pending, or inside a list)?
@@ -90,6 +91,16 @@ func (m *model) atValue() bool {
 	}
 	top := m.stack[len(m.stack)-1]
 	return !top.isMap || top.hasK
+}
+
+// atValueOfMap: a map entry's key has been given and its value is pending (the harness holds the value
+// assembler then; abandoning it is left out to keep Reset at call boundaries the contract names).
+func (m *model) atValueOfMap() bool {
+	if len(m.stack) == 0 {
+		return false
+	}
+	top := m.stack[len(m.stack)-1]
+	return top.isMap && top.hasK
 }
 
 func (m *model) put(v ref.Val) {
@@ -158,6 +169,10 @@ func (m *model) enabled(engine string, b bounds) []next {
 			out = append(out, next{"Reset", "ok"})
 		}
 		return out
+	}
+	if len(m.stack) > 0 && m.resets < 1 && !m.atValueOfMap() {
+		// Reset in the middle of an assembly (a decoder that gives up does this): the builder starts over
+		out = append(out, next{"Reset", "ok"})
 	}
 	if m.atValue() {
 		for _, c := range valueCalls {
@@ -267,7 +282,11 @@ func (m *model) apply(c Call) {
 	case s == "Build":
 		m.built++
 	case s == "Reset":
-		*m = model{rejected: m.rejected, built: m.built}
+		r := m.resets
+		if !m.done {
+			r++
+		}
+		*m = model{rejected: m.rejected, built: m.built, resets: r}
 	}
 }
 
